@@ -73,6 +73,32 @@ func TestGvcAdapterCommands(t *testing.T) {
 	_ = p // the session is left to the process exit: closing after an early error return can block on the peer
 }
 
+// A failed ExecuteIQ must release the response it obtained: otherwise the serve
+// loop stays parked on it and no later reply is ever delivered.
+func TestGvcAdapterCommandsFailedExecuteReleasesResponse(t *testing.T) {
+	cs := xmpptest.NewClientServer(xmpptest.ServerHandlerFunc(textReply))
+	ctx, cancel := context.WithTimeout(context.Background(), 5*time.Second)
+	defer cancel()
+	_, tr, err := commands.Command{JID: jid.MustParse("a@example.net"), Node: "n"}.Execute(ctx, nil, cs.Client)
+	if err == nil {
+		if tr != nil {
+			tr.Close()
+		}
+		fmt.Println("NOT-REPRODUCED Execute did not fail on a text payload")
+		return
+	}
+	ctx2, cancel2 := context.WithTimeout(context.Background(), 2*time.Second)
+	defer cancel2()
+	resp, err := cs.Client.SendIQ(ctx2, stanza.IQ{Type: stanza.GetIQ}.Wrap(xmlstream.Wrap(nil, xml.StartElement{Name: xml.Name{Local: "q", Space: "urn:example"}})))
+	if err != nil {
+		fmt.Printf("REPRODUCED after a failed Execute the next IQ gets no reply (serve loop parked on the unreleased response): %v\n", err)
+		t.Fail()
+		return
+	}
+	resp.Close()
+	fmt.Println("NOT-REPRODUCED the response of the failed Execute was released")
+}
+
 func TestGvcAdapterHistory(t *testing.T) {
 	h := history.NewHandler(nil)
 	guard(t, "history.HandleMessage with character data as first child", func() {
